@@ -46,6 +46,9 @@ def _case(draw, ctx):
         # names that look like the names the transform generates (copy prefixes, aux inputs)
         pools = (S.BENIGN[:8], ["c0_en", "c1_sel", "c0_a", "c1_b", "c2_x", "aux_in_r", "aux_in_a", "r", "a_aux_in_b", "c0_aux_in_a"])
         adv = True
+    if not adv and draw(st.integers(0, 4)) == 0:
+        # names related by suffixes / escaped spellings of the same text (\\q next to q)
+        pools = (draw(S.related_names_pool(escaped=True)),)
     spec = draw(S.circuit_spec(min_inputs=0, max_inputs=3, min_gates=2, max_gates=9, max_fanin=3, cyclic=True,
                                selfloops=False, io_outputs=True, pools=pools))
     gates = [x for x in spec["nodes"] if x[1] in S.ALL_GATES]
